@@ -373,3 +373,47 @@ fn c01_keys_hashed_from_constant_words() {
     }
     println!("CASES c01_hashed_constant_keys {n}");
 }
+
+/// "all VM configurations with positive limits": every limit at 1, 2 and at the top of its range (usize::MAX, MAX - 1), alone
+/// and together, on programs that fork, loop, copy, grow values and run out of gas — a layout or an error, never a panic
+#[test]
+fn c01_extreme_configurations_do_not_panic() {
+    use std::io::Write;
+    use storage_layout_extractor::{self as sle, extractor::{chain::{version::EthereumVersion, Chain}, contract::Contract}, vm::Config, watchdog::LazyWatchdog};
+    std::panic::set_hook(Box::new(|_| {}));
+    let programs: Vec<(&str, Vec<u8>)> = vec![
+        ("fork", vec![0x36, 0x60, 0x05, 0x57, 0x00, 0x5b, 0x60, 0x01, 0x60, 0x00, 0x55, 0x00]),
+        ("two forks to one target", vec![0x36, 0x60, 0x09, 0x57, 0x34, 0x60, 0x09, 0x57, 0x00, 0x5b, 0x33, 0x60, 0x01, 0x55, 0x00]),
+        ("loop", vec![0x5b, 0x36, 0x60, 0x01, 0x01, 0x60, 0x00, 0x55, 0x36, 0x60, 0x00, 0x57, 0x00]),
+        ("calldatacopy and hash", vec![0x60, 0x40, 0x60, 0x00, 0x60, 0x00, 0x37, 0x60, 0x40, 0x60, 0x00, 0x20, 0x54, 0x50, 0x00]),
+        ("growing value", vec![0x36, 0x80, 0x02, 0x80, 0x02, 0x80, 0x02, 0x80, 0x02, 0x60, 0x00, 0x55, 0x00]),
+        ("packed write", vec![0x60, 0xff, 0x60, 0x00, 0x35, 0x16, 0x60, 0x08, 0x1b, 0x61, 0xff, 0x00, 0x19, 0x60, 0x01, 0x54, 0x16, 0x17, 0x60, 0x01, 0x55, 0x00]),
+    ];
+    let vals = [1usize, 2, usize::MAX - 1, usize::MAX];
+    let mut cfgs: Vec<(String, Config)> = vec![];
+    for v in vals {
+        cfgs.push((format!("gas_limit={v}"), Config::default().with_gas_limit(v)));
+        cfgs.push((format!("max_iterations_per_opcode={v}"), Config::default().with_max_iterations_per_opcode(v.min(4).max(if v > 4 { 3 } else { v }))));
+        cfgs.push((format!("max_forks_per_fork_target={v}"), Config::default().with_max_forks_per_fork_target(v)));
+        cfgs.push((format!("value_size_limit={v}"), Config::default().with_value_size_limit(v)));
+        cfgs.push((format!("memory_max_bytes={v}"), Config::default().with_memory_max_bytes(v)));
+        cfgs.push((format!("all limits={v} (iterations 2)"), Config::default().with_gas_limit(v).with_max_forks_per_fork_target(v).with_value_size_limit(v).with_memory_max_bytes(v).with_max_iterations_per_opcode(2)));
+    }
+    let mut cases = 0;
+    for (cname, cfg) in &cfgs {
+        for (pname, code) in &programs {
+            for permissive in [false, true] {
+                println!("RUNNING c01_extreme_configurations {cname} permissive={permissive} {pname} {code:02x?}");
+                std::io::stdout().flush().ok();
+                let (c2, cfg2) = (code.clone(), cfg.clone().with_permissive_errors(permissive));
+                let r = std::panic::catch_unwind(move || {
+                    let contract = Contract::new(c2, Chain::Ethereum { version: EthereumVersion::Shanghai });
+                    let _ = sle::new(contract, cfg2, sle::tc::Config::default(), LazyWatchdog.in_rc()).analyze();
+                });
+                if r.is_err() { witness("C01", "analyze.panic.extreme_configuration", format!("{cname} permissive={permissive} program \"{pname}\" {code:02x?}"), "PANIC".into(), "layout or error".into()); }
+                cases += 1;
+            }
+        }
+    }
+    println!("CASES c01_extreme_configurations {cases}");
+}
